@@ -35,7 +35,9 @@ RULE = ('case = (object configs (reentrant?, constructor timeout), fault script,
         'double injections; random longer sequences.  non-trivial (decided in Coq): >= 3 observed calls with a '
         'successful acquire and either a refusal or a second success.  Context managers entered through acquire_ctx() / '
         'with are left alternately normally and through an exception (__exit__(ValueError, ...)): both must do the same '
-        'release().')
+        'release().  Unlock / close faults also come in a KeyboardInterrupt flavour (a BaseException that is not an '
+        'Exception; driver only: the library handles it like the OSError at these sites, so the model replays it as the '
+        'same fault).')
 EXHAUSTIVE_NOTE = ('all canonical contract-respecting shapes of length <= 4 (quick) / <= 5 (thorough) over 12 letters; '
                    'single-fault injection at every syscall index for shapes of length <= 3 (quick: every second shape) / <= 4')
 ASSUMPTIONS = ['kernel flock(2): exclusive per open file description, released by LOCK_UN / close (checked on every '
@@ -183,6 +185,12 @@ def corpus():
     n = _counts(mk(cfgR, base[:2]))
     out.append(mk(cfgR, base, [('unlock', n['unlock'])]))
     out.append(mk(cfgR, base, [('close', n['close'])]))
+    # a BaseException that is not an Exception (KeyboardInterrupt) out of the close after a failed flock /
+    # out of unlock, close in release: same clean-up as for the OSError (bare except clauses l.181, l.236)
+    cfgN = [[False, -1], [False, -1]]
+    out.append(mk(cfgN, [A(0, 0), A(1, 1, ('plain', False, None)), A(1, 1, ('plain', False, None)), R(0, 0)], [('close', 0, 'ki')]))
+    out.append(mk(cfgN, [A(0, 0), R(0, 0), A(1, 1)], [('unlock', 0, 'ki')]))
+    out.append(mk(cfgR, base, [('close', n['close'], 'ki')]))
     return out
 
 
@@ -191,6 +199,9 @@ def _fault_cases(args):
     n = _counts(mk(cfg, ops))
     sites = [(k, i) for k in ('open', 'lock', 'unlock', 'close') for i in range(n[k])]
     out = [mk(cfg, ops, [s]) for s in sites]
+    # the same fault as a BaseException that is not an Exception (KeyboardInterrupt flavour) where the
+    # library handles both alike: unlock / close
+    out += [mk(cfg, ops, [(k, i, 'ki')]) for k, i in sites if k in ('unlock', 'close')]
     if n_double and len(sites) >= 2:
         rnd = random.Random(double_seed)
         pairs = list(itertools.combinations(sites, 2))
@@ -264,7 +275,11 @@ def gen_random(tier, seed):
         faults = []
         if rnd.random() < 0.35:
             for _ in range(rnd.randint(1, 2)):
-                faults.append((rnd.choice(['open', 'lock', 'unlock', 'close']), rnd.randint(0, 3 * L)))
+                k = rnd.choice(['open', 'lock', 'unlock', 'close'])
+                f = (k, rnd.randint(0, 3 * L))
+                if k in ('unlock', 'close') and rnd.random() < 0.4:
+                    f = f + ('ki',)
+                faults.append(f)
         out.append(mk(cfg, ops, sorted(set(faults))))
     return out
 
@@ -334,7 +349,8 @@ LEVEL_TEXT = ('FileLock (acquire / acquire_ctx / with / release / release(force)
               'threads on any objects gives exactly the results of the abstract Lock/RLock spec FLockSpec.v, and the final '
               'state represents the spec state: is_locked iff held, counter = RLock depth, thread lock free iff unheld) with '
               'the corollaries acquire_true_iff_holds, reacquire_after_release (F6), nonreentrant_refuses_second_acquire, '
-              'only_outermost_release_frees.  Tied to /repo by differential correspondence on enumerated and random call '
+              'only_outermost_release_frees, and monitor_complete (Case_C12.ok accepts the model\'s own trace of every '
+              'contract-respecting fault-free sequence).  Tied to /repo by differential correspondence on enumerated and random call '
               'sequences with fault injection, evaluated by vm_compute.')
 LEVEL_NOTE = ('trusted: Coq kernel + vm_compute; no axioms; kernel flock semantics and threading.Lock/RLock are modelled '
               'primitives (assumption, checked against the shim table on every run); the refinement theorem is about one '
